@@ -176,7 +176,7 @@ func c07OracleAlias(g *Gen, keys []c07Real) {
 			if cnt[k.k] > 1 {
 				ambiguous = true
 			}
-			lines = append(lines, c07BLine{k.k.name, k.k.hash, k.sign(text)})
+			lines = append(lines, c07BLine{k.k.name, k.k.hash, k.sign(text), ""})
 		}
 		if r.Chance(25) {
 			i := r.Intn(len(lines))
